@@ -48,6 +48,9 @@ def structure(tree, Process):
     return tree
 
 
+REGISTRY = []      # (pid, ParallelProcess) of the current mode, strong references until the deletion check
+
+
 def run_mode(spec, parallel, PIDS):
     from vivarium.core.process import Process
     from vmon import sched, structw, sensors
@@ -73,6 +76,7 @@ def run_mode(spec, parallel, PIDS):
         else:
             s = json.loads(json.dumps(spec['spec']))
             s['parallel_cells'] = bool(parallel)
+            s['parallel_cell_steps'] = bool(parallel and spec.get('parallel_steps'))
             s['viewers'] = False
             e, comp = structw.build(s, emitter={'type': 'timeseries'})
             calls = s['calls']
@@ -95,6 +99,24 @@ def run_mode(spec, parallel, PIDS):
         out['trace'] = traceback.format_exc()[-800:]
     finally:
         Mon.cur = None
+    # workers of parallel processes that are no longer in the hierarchy (deleted / divided away) must
+    # already be gone now - before the engine is ended or dropped, and before any garbage collection
+    if e is not None and out['exc'] is None:
+        try:
+            from vivarium.core.process import ParallelProcess
+            live = {id(n.value) for _, n in e.state.depth() if isinstance(n.value, ParallelProcess)}
+            gone = [(pid, obj) for pid, obj in REGISTRY if id(obj) not in live]
+            for _ in range(40):
+                still = [pid for pid, obj in gone if worker_state(pid) not in (None, 'Z')]
+                if not still:
+                    break
+                time.sleep(0.025)
+            out['deleted_workers_alive'] = still if gone else []
+            out['deleted_workers'] = len(gone)
+        except Exception as ex:  # noqa
+            out['deleted_workers_alive'] = []
+            out['deleted_check_error'] = repr(ex)[:200]
+    del REGISTRY[:]
     nend = spec.get('end', 1)
     if e is not None:
         for _ in range(nend):
@@ -129,6 +151,7 @@ def main():
     def init(self, *a, **k):
         orig_init(self, *a, **k)
         PIDS.append(self.multiprocess.pid)
+        REGISTRY.append((self.multiprocess.pid, self))
     ParallelProcess.__init__ = init
     result = {}
     for mode in spec.get('modes', ['serial', 'parallel']):
